@@ -33,7 +33,8 @@ def _strip(e):
 
 def _mentions(e, names): return any(isinstance(n, ast.Name) and n.id in names for n in ast.walk(e))
 
-def translate_call(src_root, rel, cls, lean_name):
+def translate_call(src_root, rel, cls, lean_name, assume=None):
+    assume = assume or {}          # truth values fixed for data-dependent choices of evaluation order (each value gets its own definition)
     path = os.path.join(src_root, rel); src = open(path).read(); mod = ast.parse(src)
     c = next((x for x in mod.body if isinstance(x, ast.ClassDef) and x.name == cls), None)
     if c is None: raise Unsupported(f"class {cls} not found")
@@ -93,6 +94,7 @@ def translate_call(src_root, rel, cls, lean_name):
     def flat(stmts):
         for st in stmts:
             if isinstance(st, ast.With): yield from flat(st.body)          # `with torch.inference_mode():` and the like
+            elif isinstance(st, ast.If) and isinstance(st.test, ast.Name) and st.test.id in assume: yield from flat(st.body if assume[st.test.id] else st.orelse)
             else: yield st
     for s in flat(fn.body):
         if isinstance(s, ast.Return) and started and wrapped is not None:
@@ -132,6 +134,8 @@ def translate_call(src_root, rel, cls, lean_name):
                 if isinstance(v, ast.Call) and isinstance(v.func, ast.Name) and v.func.id == "ItemList" and len(v.args) == 1 and isinstance(v.args[0], ast.Name) and v.args[0].id == itemsvar:
                     sc = {k.arg: k.value for k in v.keywords}.get("scores")
                     if isinstance(sc, ast.Name) and kind.get(sc.id, ("",))[0] == "scat": wrapped = (t.id, sc.id); dep.add(t.id); continue
+                if t.id in assume and isinstance(v, ast.Compare):
+                    notes.append(f"line {s.lineno}: `{ast.unparse(s)}` chooses an order of evaluation; translated once for each outcome (here: {assume[t.id]})"); continue
                 if not _mentions(v, dep): continue          # item-independent (the user's row, a bias term of the user …)
                 if isinstance(v, ast.Tuple) or (isinstance(v, ast.Call) and isinstance(t, ast.Tuple)): pass
                 raise Unsupported(f"line {s.lineno}: {ast.unparse(s)[:80]}")
@@ -162,12 +166,13 @@ def translate_call(src_root, rel, cls, lean_name):
 
 SCORERS = [("basic/popularity.py", "PopScorer", "popScorerCall"), ("hpf.py", "HPFScorer", "hpfScorerCall"), ("funksvd.py", "FunkSVDScorer", "funkSVDScorerCall"),
            ("als/_common.py", "ALSBase", "alsScorerCall"), ("sklearn/svd.py", "BiasedSVDScorer", "biasedSVDScorerCall"),
-           ("flexmf/_base.py", "FlexMFScorerBase", "flexMFScorerCall")]
+           ("flexmf/_base.py", "FlexMFScorerBase", "flexMFScorerCall"),
+           ("implicit.py", "BaseRec", "implicitScorerCallMultFirst", {"mult_first": True}), ("implicit.py", "BaseRec", "implicitScorerCallGatherFirst", {"mult_first": False})]
 
 def generate(src_root):
     parts = []; notes = []
-    for rel, cls, nm in SCORERS:
-        r = translate_call(src_root, rel, cls, nm)
+    for rel, cls, nm, *rest in SCORERS:
+        r = translate_call(src_root, rel, cls, nm, *rest)
         notes.append(f"* `{nm}` ← {r['where']}, source sha256/64 {r['digest']}" + "".join(f"\n    - {a}" for a in r["notes"]))
         parts.append(r["lean"])
     return ("import LK.Model.ArrayOps\n/-! GENERATED by translate/py2lean_scatter.py on every run of `./check C04`; do not edit.\n" + "\n".join(notes) + "\n-/\n"
